@@ -7,6 +7,8 @@ and an own dynamic programme (cross-checked against the enumeration on every enu
 import itertools
 import math
 
+import numpy as np
+
 from hypothesis import strategies as st
 
 from tracklib.algo.comparison import (MODE_COMPARISON_FRECHET, MODE_MATCHING_DTW, MODE_MATCHING_FDTW,
@@ -249,10 +251,25 @@ def _check_matching(m, C, opt, p, what, ctx, slack=0.0):
     return S
 
 
-def _check(t1, t2, dim, p, frechet, coords=None, fdtw_first=False):
+# np.float32 exponents are not generated: numpy then computes d**p in single precision (2e-8 relative), which the 1e-9
+# tolerance of the score would misread as a wrong optimum
+PTYPES = ["py", "py", "py", "float", "np.int64", "np.int32", "np.float64"]
+
+
+def _typed_p(p, ptype):
+    """the same exponent in another numeric type (an element of np.arange, a data-frame cell ...); inf stays as it is"""
+    if p == INF or ptype in (None, "py"):
+        return p
+    if ptype == "float":
+        return float(p)
+    return getattr(np, ptype.split(".")[1])(p)
+
+
+def _check(t1, t2, dim, p, frechet, coords=None, fdtw_first=False, ptype=None):
     coords = coords or {"cls": "enu"}
     a = _build(t1, coords)
     b = _build(t2, coords)
+    pa = _typed_p(p, ptype)              # what tracklib receives; the oracle works with the plain number
     C, Cs, slack = _matrices(t1, t2, dim, p, coords)
     _, T, opt, enumerated = _reference_of(C, p, "%s / %s dim=%s %s" % (t1, t2, dim, coords))
     opts = opt if slack == 0.0 else _reference_of(Cs, p)[2]        # optimum as the swapped call sees it
@@ -261,9 +278,9 @@ def _check(t1, t2, dim, p, frechet, coords=None, fdtw_first=False):
         ctx += " coords=%s" % (coords,)
     calls = (("dtw", MODE_MATCHING_DTW), ("fdtw", MODE_MATCHING_FDTW))
     for what, mode in (calls[::-1] if fdtw_first else calls):
-        m = match(a, b, mode=mode, p=p, dim=dim, verbose=False, plot=False)
+        m = match(a, b, mode=mode, p=pa, dim=dim, verbose=False, plot=False)
         _check_matching(m, C, opt, p, what, ctx, slack)
-        ms = match(b, a, mode=mode, p=p, dim=dim, verbose=False, plot=False)
+        ms = match(b, a, mode=mode, p=pa, dim=dim, verbose=False, plot=False)
         if not close(float(ms.score), float(m.score), 1e-9, 1e-12 + slack):
             raise Violation(what + "-swap-asymmetric", "score %r, swapped %r; %s" % (m.score, ms.score, ctx))
         _check_matching(ms, Cs, opts, p, what, ctx + " (swapped)", slack)
@@ -273,12 +290,12 @@ def _check(t1, t2, dim, p, frechet, coords=None, fdtw_first=False):
         else:
             Cf, _, sf = _matrices(t1, t2, dim, INF, coords)
             of = _reference_of(Cf, INF)[2]
-        m = match(a, b, mode=MODE_MATCHING_FRECHET, p=p, dim=dim, verbose=False, plot=False)
+        m = match(a, b, mode=MODE_MATCHING_FRECHET, p=pa, dim=dim, verbose=False, plot=False)
         _check_matching(m, Cf, of, INF, "dtw", ctx + " mode=FRECHET", sf)
-        v = compare(a, b, mode=MODE_COMPARISON_FRECHET, p=p, dim=dim, verbose=False, plot=False)
+        v = compare(a, b, mode=MODE_COMPARISON_FRECHET, p=pa, dim=dim, verbose=False, plot=False)
         if not close(float(v), of, 1e-9, 1e-12 + sf):
             raise Violation("frechet-compare-wrong", "compare(FRECHET) = %r, discrete Frechet distance %r; %s" % (v, of, ctx))
-        vs = compare(b, a, mode=MODE_COMPARISON_FRECHET, p=p, dim=dim, verbose=False, plot=False)
+        vs = compare(b, a, mode=MODE_COMPARISON_FRECHET, p=pa, dim=dim, verbose=False, plot=False)
         if not close(float(vs), float(v), 1e-9, 1e-12 + sf):
             raise Violation("frechet-compare-asymmetric", "compare(FRECHET) = %r, swapped %r; %s" % (v, vs, ctx))
     ties = _tie_classes(T)
@@ -365,6 +382,7 @@ def strat_pair(draw):
         return case
     case["dim"] = 3 if cc == "ecef" else draw(st.sampled_from([2, 2, 3]))
     case["fdtw_first"] = draw(st.booleans())
+    case["ptype"] = draw(st.sampled_from(PTYPES))
     if cc == "lonlat":
         o = draw(st.sampled_from(LONLAT0))
         case["t1"] = [[o[0] + q[0] * 1e-4, o[1] + q[1] * 1e-4, o[2] + q[2]] for q in t1]
@@ -386,7 +404,8 @@ def body_pair(case):
         # comparison._distance reads .U (dim 1) / calls distance2DTo (dim 2), which only ENUCoords (/ GeoCoords) have:
         # the unchanged code raises AttributeError; not generated, nothing demanded
         return {"undef": True, "cls": ["dim-%d-not-available-for-%s" % (dim, coords["cls"])]}
-    ties, enumerated = _check(t1, t2, dim, p, frechet=(p == INF), coords=coords, fdtw_first=bool(case.get("fdtw_first")))
+    ties, enumerated = _check(t1, t2, dim, p, frechet=(p == INF), coords=coords, fdtw_first=bool(case.get("fdtw_first")),
+                              ptype=case.get("ptype"))
     cls = sorted(ties) or ["no-tie"]
     cls += ["p=%s" % p, "dim=%d" % dim, "oracle=enumeration" if enumerated else "oracle=dp",
             "size1" if min(len(t1), len(t2)) == 1 else "sizes>=2", "coords=" + coords["cls"]]
